@@ -221,6 +221,43 @@ func c15Enumerate(family string, tier string, seed int64) []c15Mut {
 			}
 			out = sub
 		}
+	case "wrap":
+		// cooperating values: the array's start, end or byte count wraps around 2^64 / 2^63 and
+		// lands back inside the device, so that a check written with plain additions is fooled
+		for _, bn := range []string{"gpt512", "gpt4096"} {
+			b := bases[bn]
+			l := uint64(b.lss)
+			dev := uint64(len(b.bytes))
+			for _, where := range []string{"primary", "backup"} {
+				for _, cnt := range []uint64{128, 1 << 14, 1 << 20, 1 << 21, 1 << 24, 1<<31 - 1, 1<<32 - 1} {
+					for _, esz := range []uint64{128} {
+						total := cnt * esz
+						var lbas []uint64
+						for _, r := range []uint64{0, l, 2 * l, dev / 2, dev - l} {
+							// LBA*l + total == r (mod 2^64)
+							lbas = append(lbas, (r-total)/l, (r-total)/l+1)
+							// LBA*l + total == r (mod 2^63): sign-bit wrap of an int64 sum
+							lbas = append(lbas, ((uint64(1)<<63)+r-total)/l)
+						}
+						// the product LBA*l itself wraps to a small offset
+						lbas = append(lbas, (^uint64(0))/l+1, (^uint64(0))/l+3, (uint64(1)<<63)/l, (uint64(1)<<63)/l+2)
+						seen := map[uint64]bool{}
+						for _, lba := range lbas {
+							if seen[lba] {
+								continue
+							}
+							seen[lba] = true
+							for _, crc := range []int{1, 2} {
+								out = append(out, c15Mut{Base: bn, FixCRC: crc, KillPrimary: where == "backup", Edits: []c15Edit{
+									{Where: where, Field: "array_lba", Off: 72, Width: 8, Value: lba},
+									{Where: where, Field: "entry_count", Off: 80, Width: 4, Value: cnt},
+									{Where: where, Field: "entry_size", Off: 84, Width: 4, Value: esz}}})
+							}
+						}
+					}
+				}
+			}
+		}
 	case "trunc":
 		for _, bn := range []string{"gpt512", "gpt4096", "mbr"} {
 			b := bases[bn]
@@ -529,11 +566,11 @@ type c15Params struct {
 }
 
 func init() {
-	families := []string{"hdr1", "entry1", "pairs", "trunc", "mbr1", "random"}
+	families := []string{"hdr1", "entry1", "pairs", "wrap", "trunc", "mbr1", "random"}
 	core.Register(&core.Check{
 		ID:    "C15",
 		Level: "fault_enumeration",
-		Rule: "valid GPT (512/4096-byte sectors, 3/2/128 entries) and MBR base devices written by the library, then: every header field x boundary values {0,1,2,max,max-1,sign bit,old+-1, size*count overflow products, LBAs around the device end and around 2^63/sector} x {primary, backup with primary destroyed} x {CRC left stale, header CRC recomputed, array+header CRC recomputed}; entry fields likewise; all pairs of the size-determining fields (entry count, entry size, array LBA); truncated devices at every structure boundary +-1; every MBR entry/signature byte x 10 values; seeded random images. Each mutated device is read by gpt.Read, mbr.Read and partition.Read in a worker child. Non-trivial = gpt.Read got past the signature check (returned a table, used the backup, or failed later); distinct = distinct mutation",
+		Rule: "valid GPT (512/4096-byte sectors, 3/2/128 entries) and MBR base devices written by the library, then: every header field x boundary values {0,1,2,max,max-1,sign bit,old+-1, size*count overflow products, LBAs around the device end and around 2^63/sector} x {primary, backup with primary destroyed} x {CRC left stale, header CRC recomputed, array+header CRC recomputed}; entry fields likewise; all pairs of the size-determining fields (entry count, entry size, array LBA); cooperating triples whose start, end or byte count wraps around 2^64/2^63 back into the device; truncated devices at every structure boundary +-1; every MBR entry/signature byte x 10 values; seeded random images. Each mutated device is read by gpt.Read, mbr.Read and partition.Read in a worker child. Non-trivial = gpt.Read got past the signature check (returned a table, used the backup, or failed later); distinct = distinct mutation",
 		Assumptions: []string{"allocation is measured as the runtime.MemStats.TotalAlloc delta around each call; bound 4*deviceSize+1MiB", "read volume bound 8*deviceSize+64KiB", "fatal runtime errors (out of memory) are observed as the death of the worker child, attributed through the case journal", "worker address space capped at 24 GiB (RLIMIT_AS)"},
 		MinSigs:   map[string]int{"quick": 1500, "thorough": 5000},
 		CPUSec:    120,
@@ -587,6 +624,6 @@ func init() {
 			}
 			return res
 		},
-		NeedMarks: []string{"family hdr1", "family entry1", "family pairs", "family trunc", "family mbr1", "family random"},
+		NeedMarks: []string{"family hdr1", "family entry1", "family pairs", "family wrap", "family trunc", "family mbr1", "family random"},
 	})
 }
